@@ -100,6 +100,8 @@ structure Range where
   scaleCh : List Nat     -- ghost: channels whose records were written
   weightCh : List Nat    -- ghost: channels handed to the encoder
   cbd : Nat              -- ghost: `core_block_depth` handed to the encoder
+  scaleData : List Nat   -- ghost: the record bytes written (`scale_stream`)
+  weightData : List Nat  -- ghost: the encoder's answer (`encoded_substream`)
 deriving Repr, DecidableEq
 
 def Range.totalBytes (r : Range) : Nat := r.scaleBytes + r.weightBytes
@@ -170,7 +172,8 @@ def encodeCore (c : Cfg) (idx off len core : Nat) (st : St) : Except Err St :=
     .ok { stream := s2,
           ranges := st.ranges ++ [{ core := core, depth := off, offset := offset, scaleBytes := scaleBytes,
                                     weightOffset := weightOffset, weightBytes := sub.length,
-                                    index := st.index, slice := idx, scaleCh := sch, weightCh := wch, cbd := cbd }],
+                                    index := st.index, slice := idx, scaleCh := sch, weightCh := wch, cbd := cbd,
+                                    scaleData := ss, weightData := sub }],
           index := st.index + 1 }
 
 def encodeCores (c : Cfg) (idx off len : Nat) : List Nat → St → Except Err St
